@@ -688,3 +688,4 @@ def check(prog, rep, tier, cfg):
     check_d(prog, rep)
     check_e(prog, rep)
     check_f(prog, rep)
+    panic.check_g(prog, rep)
